@@ -490,7 +490,7 @@ theorem entries_stepCore {t : Net} {op : Op} {x : Node} {e : Entry}
       · rename_i hx; subst hx; exact Or.inl h
       · exact Or.inl h
     · exact Or.inl h
-  | withdraw a =>
+  | withdraw a _ =>
     simp only [stepCore] at h
     split at h
     · simp only [setNode_nodes] at h
@@ -655,6 +655,40 @@ theorem announce_covers {self : Node} {st : NodeSt} {hint : List (List RAd)} {r 
   obtain ⟨m, hm, hmr⟩ := announceAdvsAux_covers (self := self) _ st.seq hg
   exact ⟨m, hm, by rw [hmr]; exact hrg⟩
 
+/-- Shape of a ROUTE_WITHDRAW built by WithdrawLocalRoutes. -/
+structure IsWithdrawn (me : Node) (st : NodeSt) (n : Nat) (m : Adv) : Prop where
+  origin : m.origin = me
+  path : m.path = []
+  seenBy : m.seenBy = [me]
+  wd : m.wd = true
+  seq_gt : st.seq < m.seq
+  seq_le : m.seq ≤ st.seq + n
+
+theorem mem_withdrawAdvsAux {self : Node} {m : Adv} (gs : List (List RAd)) (seq : Nat)
+    (h : m ∈ withdrawAdvsAux self gs seq) :
+    m.origin = self ∧ m.path = [] ∧ m.seenBy = [self] ∧ m.wd = true ∧ seq < m.seq ∧ m.seq ≤ seq + gs.length := by
+  induction gs generalizing seq with
+  | nil => simp [withdrawAdvsAux] at h
+  | cons g t ih =>
+    simp only [withdrawAdvsAux] at h
+    rcases List.mem_cons.1 h with h | h
+    · subst h
+      exact ⟨rfl, rfl, rfl, rfl, by simp, by simp⟩
+    · obtain ⟨h1, h2, h3, h4, h5, h6⟩ := ih (seq + 1) h
+      exact ⟨h1, h2, h3, h4, by omega, by simp only [List.length_cons]; omega⟩
+
+theorem withdrawAdvsAux_length (self : Node) (gs : List (List RAd)) (seq : Nat) :
+    (withdrawAdvsAux self gs seq).length = gs.length := by
+  induction gs generalizing seq with
+  | nil => rfl
+  | cons g t ih => simp [withdrawAdvsAux, ih]
+
+theorem mem_withdrawAdvs {self : Node} {st : NodeSt} {hint : List (List RAd)} {m : Adv}
+    (h : m ∈ withdrawAdvs self st hint) : IsWithdrawn self st (withdrawAdvs self st hint).length m := by
+  unfold withdrawAdvs at h ⊢
+  obtain ⟨h1, h2, h3, h4, h5, h6⟩ := mem_withdrawAdvsAux _ _ h
+  exact ⟨h1, h2, h3, h4, h5, by rw [withdrawAdvsAux_length]; exact h6⟩
+
 theorem mem_originEntries {st : NodeSt} {peer o : Nat} {e : Entry} (h : e ∈ originEntries st peer o) :
     e ∈ st.entries ∧ e.origin = o ∧ e.nextHop ≠ peer := by
   simp only [originEntries, pickTab, pickAgents, List.mem_append, List.mem_filter, Bool.and_eq_true,
@@ -762,9 +796,9 @@ inductive FlightFrom (t : Net) (op : Op) (f : Flight) : Prop where
       (hwire : m.wd = false → m.seenBy.length + 1 ≤ maxWireAgents ∧ m.path.length + 1 ≤ maxWireAgents)
       (hadv : f.adv = fwdAdv f.src m)
   /-- `WithdrawLocalRoutes` at `f.src` -/
-  | wdr (hop : op = .withdraw f.src) (ha : f.src < t.n)
+  | wdr (hint : List (List RAd)) (hop : op = .withdraw f.src hint) (ha : f.src < t.n)
       (hcidr : (t.nodes f.src).locals.any (fun r => r.kind == 0) = true) (hd : f.dst ∈ peersOf t f.src)
-      (hadv : f.adv = withdrawAdv f.src (t.nodes f.src))
+      (hadv : f.adv ∈ withdrawAdvs f.src (t.nodes f.src) hint)
   /-- `SendFullTable(f.dst)` at `f.src` -/
   | rep (ord : List RFrame) (hop : op = .replay f.src f.dst ord) (ha : f.src < t.n) (hb : f.dst < t.n)
       (hl : linked t f.src f.dst = true)
@@ -816,14 +850,15 @@ theorem flight_stepCore {t : Net} {op : Op} {f : Flight} (h : f ∈ (stepCore t 
         rcases List.mem_map.1 hf with ⟨p, hp, rfl⟩
         exact .ann hint rfl hc hp hm
     · exact .old h
-  | withdraw a =>
+  | withdraw a hint =>
     simp only [stepCore] at h
     split at h
     · rename_i hc
       rcases List.mem_append.1 h with h | h
       · exact .old h
-      · rcases List.mem_map.1 h with ⟨p, hp, rfl⟩
-        exact .wdr rfl hc.1 hc.2 hp rfl
+      · rcases List.mem_flatMap.1 h with ⟨m, hm, hf⟩
+        rcases List.mem_map.1 hf with ⟨p, hp, rfl⟩
+        exact .wdr hint rfl hc.1 hc.2 hp hm
     · exact .old h
   | deliver a b i =>
     simp only [stepCore] at h
@@ -874,7 +909,7 @@ theorem linked_stepCore {t : Net} {op : Op} {a b : Node} (hnd : ∀ c d, op ≠ 
     · exact h
   | replay c d ord => simp only [stepCore]; split <;> exact h
   | announce c _ => simp only [stepCore]; split <;> exact h
-  | withdraw c => simp only [stepCore]; split <;> exact h
+  | withdraw c _ => simp only [stepCore]; split <;> exact h
   | deliver c d i =>
     simp only [stepCore]
     split
@@ -955,7 +990,7 @@ theorem locals_stepCore (t : Net) (op : Op) (x : Node) :
       · rename_i hx; subst hx; rfl
       · rfl
     · rfl
-  | withdraw a =>
+  | withdraw a _ =>
     simp only [stepCore]
     split
     · simp only [setNode_nodes]; split
@@ -1139,7 +1174,7 @@ theorem links_stepCore_eq (t : Net) (op : Op) (h : ∀ a b, op ≠ .connect a b)
   | disconnect a b => exact absurd rfl (hd a b)
   | replay c d ord => simp only [stepCore]; split <;> rfl
   | announce c _ => simp only [stepCore]; split <;> rfl
-  | withdraw c => simp only [stepCore]; split <;> rfl
+  | withdraw c _ => simp only [stepCore]; split <;> rfl
   | deliver c d i =>
     simp only [stepCore]; split
     · split <;> rfl
